@@ -84,6 +84,12 @@ def do_transposes(manager, case, world, rank, exact_buffers=False):
     """Perform every transpose of the case on this rank and check the result."""
     dt = cm.np_dtype(case['dtype'])
     bsize = int(manager.bufferSize)
+    need = max(int(manager.getLayout(n).size) for n, _ in case['layouts'])
+    if bsize < need:
+        if exact_buffers:
+            raise OracleFail('buffer-size', dict(bufferSize=bsize, largest_block=need, rank=rank,
+                                                 why='the advertised buffer size is smaller than a layout\'s block'))
+        bsize = need            # (C01 does not speak of bufferSize: give the transposes what the blocks need)
     extra = 0 if exact_buffers else int(case.get('extra', 0))
     reuse = bool(case.get('reuse'))
     if reuse:
